@@ -100,6 +100,45 @@ impl<R> Drop for NotifyOnDrop<R> {
     }
 }
 
+/// Reader for the body of a request sent with the chunked transfer coding.
+///
+/// If it is destroyed before the end of the body has been reached, the remaining chunks are
+/// read and thrown away (like `EqualReader` does for bodies with a `Content-Length`), so that
+/// the next request on the connection is parsed starting right after this body.
+struct ChunkedBodyReader<R: Read> {
+    decoder: Decoder<R>,
+    // true once the last chunk has been read, or the stream failed and cannot be resumed
+    finished: bool,
+}
+
+impl<R: Read> Read for ChunkedBodyReader<R> {
+    fn read(&mut self, buf: &mut [u8]) -> io::Result<usize> {
+        if self.finished {
+            return Ok(0);
+        }
+
+        let result = self.decoder.read(buf);
+        match result {
+            Ok(0) if !buf.is_empty() => self.finished = true,
+            Err(_) => self.finished = true,
+            _ => (),
+        }
+        result
+    }
+}
+
+impl<R: Read> Drop for ChunkedBodyReader<R> {
+    fn drop(&mut self) {
+        let mut buf = [0; 1024];
+
+        while !self.finished {
+            if let Ok(0) | Err(_) = self.decoder.read(&mut buf) {
+                self.finished = true;
+            }
+        }
+    }
+}
+
 /// Error that can happen when building a `Request` object.
 #[derive(Debug)]
 pub enum RequestCreationError {
@@ -218,7 +257,11 @@ where
     } else if transfer_encoding.is_some() {
         // if a transfer-encoding was specified, then "chunked" is ALWAYS applied
         // over the message (RFC2616 #3.6)
-        Box::new(FusedReader::new(Decoder::new(source_data))) as Box<dyn Read + Send + 'static>
+        let data_reader = ChunkedBodyReader {
+            decoder: Decoder::new(source_data),
+            finished: false,
+        };
+        Box::new(FusedReader::new(data_reader)) as Box<dyn Read + Send + 'static>
     } else {
         // if we have neither a Content-Length nor a Transfer-Encoding,
         // assuming that we have no data
